@@ -373,4 +373,165 @@ def ListOfDicts_getitem_signature : List String := ["self", "index"]
 /-- the calls of dataiter/list_of_dicts.py: ListOfDicts.__getitem__ in the order Python makes them along the source text -/
 def ListOfDicts_getitem_call_order : List String := ["super", "super().__getitem__", "isinstance", "self._new"]
 
+/-- dataiter/list_of_dicts.py: ListOfDicts.__setitem__ (sha256 of the function source: 9603f410b85e816e) -/
+def ListOfDicts_setitem (truth : Term → Bool) : Out :=
+  if (!truth (Term.app "isinstance" [(Term.sym "value"), (Term.sym "AttributeDict")])) then
+    let value' : Term := (Term.app "AttributeDict" [(Term.sym "value")]);
+    Out.ret [] (Term.app "super().__setitem__" [(Term.sym "index"), value'])
+  else
+    Out.ret [] (Term.app "super().__setitem__" [(Term.sym "index"), (Term.sym "value")])
+
+/-- the decorators of dataiter/list_of_dicts.py: ListOfDicts.__setitem__, outermost first -/
+def ListOfDicts_setitem_decorators : List String := []
+
+/-- the signature of dataiter/list_of_dicts.py: ListOfDicts.__setitem__: parameters in order, with the source text of their defaults -/
+def ListOfDicts_setitem_signature : List String := ["self", "index", "value"]
+
+/-- the calls of dataiter/list_of_dicts.py: ListOfDicts.__setitem__ in the order Python makes them along the source text -/
+def ListOfDicts_setitem_call_order : List String := ["isinstance", "AttributeDict", "super", "super().__setitem__"]
+
+/-- dataiter/list_of_dicts.py: ListOfDicts.clear (sha256 of the function source: 6204d38144d2d937) -/
+def ListOfDicts_clear (truth : Term → Bool) : Out :=
+  Out.ret [] (Term.app "._new" [(Term.sym "self"), (Term.app "list" [])])
+
+/-- the decorators of dataiter/list_of_dicts.py: ListOfDicts.clear, outermost first -/
+def ListOfDicts_clear_decorators : List String := []
+
+/-- the signature of dataiter/list_of_dicts.py: ListOfDicts.clear: parameters in order, with the source text of their defaults -/
+def ListOfDicts_clear_signature : List String := ["self"]
+
+/-- the calls of dataiter/list_of_dicts.py: ListOfDicts.clear in the order Python makes them along the source text -/
+def ListOfDicts_clear_call_order : List String := ["self._new"]
+
+/-- dataiter/list_of_dicts.py: ListOfDicts.drop_na (sha256 of the function source: fdf1fef01e385a27) -/
+def ListOfDicts_drop_na (truth : Term → Bool) : Out :=
+  let eff0 : Term := (Term.app "for" [(Term.sym "item"), (Term.sym "self"), (Term.app "block" [(Term.app "if" [(Term.app "not" [(Term.app "any" [(Term.app "GeneratorExp" [(Term.app "Is" [(Term.app ".get" [(Term.sym "item"), (Term.sym "x"), (Term.sym "None")]), (Term.sym "None")]), (Term.app "in" [(Term.sym "x"), (Term.sym "keys"), (Term.app "if" [])])])])]), (Term.app "block" [(Term.app "yield" [(Term.sym "item")])]), (Term.app "block" [])])])]);
+  Out.fall [eff0]
+
+/-- the decorators of dataiter/list_of_dicts.py: ListOfDicts.drop_na, outermost first -/
+def ListOfDicts_drop_na_decorators : List String := ["deco.new_from_generator"]
+
+/-- the signature of dataiter/list_of_dicts.py: ListOfDicts.drop_na: parameters in order, with the source text of their defaults -/
+def ListOfDicts_drop_na_signature : List String := ["self", "*keys"]
+
+/-- the calls of dataiter/list_of_dicts.py: ListOfDicts.drop_na in the order Python makes them along the source text -/
+def ListOfDicts_drop_na_call_order : List String := ["item.get", "any"]
+
+/-- dataiter/list_of_dicts.py: ListOfDicts.keys (sha256 of the function source: e12ad0f32330d12e) -/
+def ListOfDicts_keys (truth : Term → Bool) : Out :=
+  let eff0 : Term := (Term.app "yield-from" [(Term.app "dict.fromkeys" [(Term.app "itertools.chain" [(Term.app "*" [(Term.sym "self")])])])]);
+  Out.fall [eff0]
+
+/-- the decorators of dataiter/list_of_dicts.py: ListOfDicts.keys, outermost first -/
+def ListOfDicts_keys_decorators : List String := []
+
+/-- the signature of dataiter/list_of_dicts.py: ListOfDicts.keys: parameters in order, with the source text of their defaults -/
+def ListOfDicts_keys_signature : List String := ["self"]
+
+/-- the calls of dataiter/list_of_dicts.py: ListOfDicts.keys in the order Python makes them along the source text -/
+def ListOfDicts_keys_call_order : List String := ["itertools.chain", "dict.fromkeys"]
+
+/-- dataiter/list_of_dicts.py: ListOfDicts.map (sha256 of the function source: 9d88709a1d6c693b) -/
+def ListOfDicts_map (truth : Term → Bool) : Out :=
+  let new' : Term := (Term.app "list()" [(Term.app "map" [(Term.sym "function"), (Term.sym "self")])]);
+  let coerce' : Term := (Term.app "all" [(Term.app "GeneratorExp" [(Term.app "isinstance" [(Term.sym "x"), (Term.sym "dict")]), (Term.app "in" [(Term.sym "x"), new', (Term.app "if" [])])])]);
+  Out.ret [] (if truth coerce' then (Term.app ".__class__" [(Term.sym "self"), new']) else new')
+
+/-- the decorators of dataiter/list_of_dicts.py: ListOfDicts.map, outermost first -/
+def ListOfDicts_map_decorators : List String := []
+
+/-- the signature of dataiter/list_of_dicts.py: ListOfDicts.map: parameters in order, with the source text of their defaults -/
+def ListOfDicts_map_signature : List String := ["self", "function"]
+
+/-- the calls of dataiter/list_of_dicts.py: ListOfDicts.map in the order Python makes them along the source text -/
+def ListOfDicts_map_call_order : List String := ["map", "list", "isinstance", "all", "self.__class__"]
+
+/-- dataiter/list_of_dicts.py: ListOfDicts.pluck (sha256 of the function source: e337b46198f1bc60) -/
+def ListOfDicts_pluck (truth : Term → Bool) : Out :=
+  Out.ret [] (Term.app "ListComp" [(Term.app ".get" [(Term.sym "x"), (Term.sym "key"), (Term.sym "default")]), (Term.app "in" [(Term.sym "x"), (Term.sym "self"), (Term.app "if" [])])])
+
+/-- the decorators of dataiter/list_of_dicts.py: ListOfDicts.pluck, outermost first -/
+def ListOfDicts_pluck_decorators : List String := []
+
+/-- the signature of dataiter/list_of_dicts.py: ListOfDicts.pluck: parameters in order, with the source text of their defaults -/
+def ListOfDicts_pluck_signature : List String := ["self", "key", "default=None"]
+
+/-- the calls of dataiter/list_of_dicts.py: ListOfDicts.pluck in the order Python makes them along the source text -/
+def ListOfDicts_pluck_call_order : List String := ["x.get"]
+
+/-- dataiter/list_of_dicts.py: ListOfDicts.sample (sha256 of the function source: 0d3fb5a21a48afdb) -/
+def ListOfDicts_sample (truth : Term → Bool) (n_is_None : Bool) : Out :=
+  if n_is_None then
+    let n' : Term := (Term.sym "dataiter.DEFAULT_PEEK_ITEMS");
+    let n' : Term := (Term.app "min" [(Term.app "len" [(Term.sym "self")]), n']);
+    let eff0 : Term := (Term.app "for" [(Term.sym "i"), (Term.app "sorted" [(Term.app "random.sample" [(Term.app "range" [(Term.app "len" [(Term.sym "self")])]), n'])]), (Term.app "block" [(Term.app "yield" [(Term.app "getitem" [(Term.sym "self"), (Term.sym "i")])])])]);
+    Out.fall [eff0]
+  else
+    let n' : Term := (Term.app "min" [(Term.app "len" [(Term.sym "self")]), (Term.sym "n")]);
+    let eff0 : Term := (Term.app "for" [(Term.sym "i"), (Term.app "sorted" [(Term.app "random.sample" [(Term.app "range" [(Term.app "len" [(Term.sym "self")])]), n'])]), (Term.app "block" [(Term.app "yield" [(Term.app "getitem" [(Term.sym "self"), (Term.sym "i")])])])]);
+    Out.fall [eff0]
+
+/-- the decorators of dataiter/list_of_dicts.py: ListOfDicts.sample, outermost first -/
+def ListOfDicts_sample_decorators : List String := ["deco.new_from_generator"]
+
+/-- the signature of dataiter/list_of_dicts.py: ListOfDicts.sample: parameters in order, with the source text of their defaults -/
+def ListOfDicts_sample_signature : List String := ["self", "n=None"]
+
+/-- the calls of dataiter/list_of_dicts.py: ListOfDicts.sample in the order Python makes them along the source text -/
+def ListOfDicts_sample_call_order : List String := ["len", "min", "len", "range", "random.sample", "sorted"]
+
+/-- dataiter/util.py: unique_keys (sha256 of the function source: 6fc1d05e520a276f) -/
+def util_unique_keys (truth : Term → Bool) : Out :=
+  Out.ret [] (Term.app "list()" [(Term.app "dict.fromkeys" [(Term.sym "keys")])])
+
+/-- the decorators of dataiter/util.py: unique_keys, outermost first -/
+def util_unique_keys_decorators : List String := []
+
+/-- the signature of dataiter/util.py: unique_keys: parameters in order, with the source text of their defaults -/
+def util_unique_keys_signature : List String := ["keys"]
+
+/-- the calls of dataiter/util.py: unique_keys in the order Python makes them along the source text -/
+def util_unique_keys_call_order : List String := ["dict.fromkeys", "list"]
+
+/-- dataiter/util.py: unique_types (sha256 of the function source: a60e5d8260c20bf1) -/
+def util_unique_types (truth : Term → Bool) : Out :=
+  Out.ret [] (Term.app "set()" [(Term.app "GeneratorExp" [(Term.app ".__class__" [(Term.sym "x")]), (Term.app "in" [(Term.sym "x"), (Term.sym "seq"), (Term.app "if" [(Term.app "And" [(Term.app "IsNot" [(Term.sym "x"), (Term.sym "None")]), (Term.app "not" [(Term.app "And" [(Term.app "isinstance" [(Term.sym "x"), (Term.sym "float")]), (Term.app "np.isnan" [(Term.sym "x")])])])])])])])])
+
+/-- the decorators of dataiter/util.py: unique_types, outermost first -/
+def util_unique_types_decorators : List String := []
+
+/-- the signature of dataiter/util.py: unique_types: parameters in order, with the source text of their defaults -/
+def util_unique_types_signature : List String := ["seq"]
+
+/-- the calls of dataiter/util.py: unique_types in the order Python makes them along the source text -/
+def util_unique_types_call_order : List String := ["isinstance", "np.isnan", "set"]
+
+/-- dataiter/deco.py: listify.wrapper (sha256 of the function source: fad29f4e8a0ecc13) -/
+def deco_listify_wrapper (truth : Term → Bool) : Out :=
+  let value' : Term := (Term.app "function" [(Term.app "*" [(Term.sym "args")]), (Term.app "=**" [(Term.sym "kwargs")])]);
+  Out.ret [] (Term.app "list()" [value'])
+
+/-- the decorators of dataiter/deco.py: listify.wrapper, outermost first -/
+def deco_listify_wrapper_decorators : List String := ["functools.wraps(function)"]
+
+/-- the signature of dataiter/deco.py: listify.wrapper: parameters in order, with the source text of their defaults -/
+def deco_listify_wrapper_signature : List String := ["*args", "**kwargs"]
+
+/-- the calls of dataiter/deco.py: listify.wrapper in the order Python makes them along the source text -/
+def deco_listify_wrapper_call_order : List String := ["function", "list"]
+
+/-- dataiter/deco.py: tuplefy.wrapper (sha256 of the function source: 100c88ed508155bc) -/
+def deco_tuplefy_wrapper (truth : Term → Bool) : Out :=
+  let value' : Term := (Term.app "function" [(Term.app "*" [(Term.sym "args")]), (Term.app "=**" [(Term.sym "kwargs")])]);
+  Out.ret [] (Term.app "tuple()" [value'])
+
+/-- the decorators of dataiter/deco.py: tuplefy.wrapper, outermost first -/
+def deco_tuplefy_wrapper_decorators : List String := ["functools.wraps(function)"]
+
+/-- the signature of dataiter/deco.py: tuplefy.wrapper: parameters in order, with the source text of their defaults -/
+def deco_tuplefy_wrapper_signature : List String := ["*args", "**kwargs"]
+
+/-- the calls of dataiter/deco.py: tuplefy.wrapper in the order Python makes them along the source text -/
+def deco_tuplefy_wrapper_call_order : List String := ["function", "tuple"]
+
 end DI.Gen
